@@ -230,7 +230,7 @@ def run(chk):
                 j = json.loads(l)
                 sets.append(('corpus:' + j['set'], j['threads'], j['reps']))
     sets += [(name, th, reps) for name, th, reps in focused_sets(rng)]
-    nrand = 14 if quick else 300
+    nrand = 14 if quick else 600
     for _ in range(nrand):
         nt = rng.choice([2, 3, 4, 6, 8])
         th = [G.Scen(rng, [0], threads=True).lines for _ in range(nt)]
